@@ -24,6 +24,11 @@ Qed.
 Lemma graftc_top_ok d t (ky kn : pcode) : top_ok d ky -> top_ok d kn -> top_ok d (graftc t ky kn).
 Proof. intros. induction t; cbn [graftc top_ok]; auto. Qed.
 
+Lemma tup_gets_top_ok d base xs (kn : pcode) : top_ok d kn -> top_ok d (tup_gets base xs kn).
+Proof. revert base. induction xs; intros base H; cbn [tup_gets top_ok]; auto. Qed.
+Lemma tup_sets_top_ok d base ts (kn : pcode) : top_ok d kn -> top_ok d (tup_sets base ts kn).
+Proof. revert base. induction ts; intros base H; cbn [tup_sets top_ok]; auto. Qed.
+
 Lemma pcompile_top_ok k : forall s d kn kb kc c, pcompile k d s kn kb kc = Some c ->
   top_ok d kn -> top_ok d kb -> top_ok d kc -> top_ok d c.
 Proof.
@@ -43,9 +48,55 @@ Proof.
   - inversion Hc; subst; auto.
   - inversion Hc; subst; auto.
   - destruct (lower k e); inversion Hc; subst. exact I.
+  - destruct (lower_list k es) as [ts|]; [|discriminate].
+    destruct (Nat.eqb (length xs) (length ts)); inversion Hc; subst.
+    now apply tup_sets_top_ok, tup_gets_top_ok.
 Qed.
 
 Definition agree_below (n : nat) (rg' rg : nat -> Z) : Prop := forall r, (r < n)%nat -> rg' r = rg r.
+
+(* ---- tuple assignment: registers base, base+1, ... hold the right-hand values *)
+Fixpoint setregs (base : nat) (vs : list Z) (rg : nat -> Z) : nat -> Z :=
+  match vs with [] => rg | v :: r => setregs (S base) r (updr rg base v) end.
+
+Lemma setregs_below base vs rg q : (q < base)%nat -> setregs base vs rg q = rg q.
+Proof.
+  revert base rg. induction vs as [|v r IH]; intros base rg H; cbn [setregs]; [reflexivity|].
+  rewrite IH by lia. unfold updr. now rewrite (proj2 (Nat.eqb_neq q base)) by lia.
+Qed.
+
+Lemma setregs_at base vs rg i v : nth_error vs i = Some v -> setregs base vs rg (base + i)%nat = v.
+Proof.
+  revert base rg i. induction vs as [|v0 r IH]; intros base rg i H; [destruct i; discriminate|].
+  cbn [setregs]. destruct i as [|i]; cbn in H.
+  - inversion H; subst. rewrite Nat.add_0_r. rewrite setregs_below by lia. unfold updr. now rewrite Nat.eqb_refl.
+  - replace (base + S i)%nat with (S base + i)%nat by lia. now apply IH.
+Qed.
+
+Lemma tup_sets_runs ls env base ts vs (kn : pcode) v : forall rg,
+  Forall2 (fun t x => eval_tree env t = ODone x) ts vs ->
+  pruns ls env (setregs base vs rg) kn v -> pruns ls env rg (tup_sets base ts kn) v.
+Proof.
+  intros rg HF. revert base rg. induction HF as [|t x tr vr Ht _ IH]; intros base rg H; cbn [tup_sets setregs] in *.
+  - exact H.
+  - eapply R_set; [exact Ht|]. apply IH. exact H.
+Qed.
+
+Lemma tup_gets_runs ls base (kn : pcode) v rg : forall xs vs env env',
+  pset_list xs vs env = Some env' ->
+  (forall i x, nth_error vs i = Some x -> rg (base + i)%nat = x) ->
+  pruns ls env' rg kn v -> pruns ls env rg (tup_gets base xs kn) v.
+Proof.
+  intros xs. revert base. induction xs as [|x xr IH]; intros base vs env env' Hs Hr H; destruct vs as [|v0 vr];
+    cbn [pset_list tup_gets] in *; try discriminate.
+  - inversion Hs; subst. exact H.
+  - destruct (pset x v0 env) as [e1|] eqn:E1; [|discriminate].
+    eapply R_get.
+    + rewrite set_nth_pset. replace (rg base) with v0; [exact E1|].
+      symmetry. rewrite <- (Nat.add_0_r base). now apply Hr.
+    + eapply (IH (S base)); eauto. intros i y Hi. replace (S base + i)%nat with (base + S i)%nat by lia.
+      now apply Hr.
+Qed.
 
 Section Sim.
 Variable k : lowcfg.
@@ -58,6 +109,18 @@ Lemma cond_ok' env c bv t : evalc64 env c = Some bv -> lower_cond k c CYes CNo =
   eval_ctree env t = ODone bv.
 Proof.
   intros He Hl. rewrite (lower_cond_exact k env HS HF c CYes CNo t bv He Hl). destruct bv; reflexivity.
+Qed.
+
+Lemma exprs_ok env : forall es vs ts, eval64_list env es = Some vs -> lower_list k es = Some ts ->
+  Forall2 (fun t x => eval_tree env t = ODone x) ts vs.
+Proof.
+  induction es as [|e r IH]; intros vs ts He Hl; cbn in He, Hl.
+  - inversion He; inversion Hl; constructor.
+  - destruct (eval64 env e) as [v0|] eqn:E0; [|discriminate].
+    destruct (eval64_list env r) as [vr|]; [|discriminate].
+    destruct (lower k e) as [t0|] eqn:L0; [|discriminate].
+    destruct (lower_list k r) as [tr|]; [|discriminate]. inversion He; inversion Hl; subst.
+    constructor; [eapply expr_ok; eauto | eauto].
 Qed.
 
 (* what the continuations must do after outcome [out] of a statement at depth d *)
@@ -196,6 +259,13 @@ Proof.
   - (* return *) intros env e v0 He d kn kb kc c ls rg v Hc Hl Hn Hb Hk Ha. cbn [pcompile] in Hc.
     destruct (lower k e) as [t|] eqn:Lt; inversion Hc; subst. cbn [after] in Ha. subst.
     apply R_ret. eapply expr_ok; eauto.
+  - (* tuple assignment *)
+    intros env xs es vs env' He Hs d kn kb kc c ls rg v Hc Hl Hn Hb Hk Ha. cbn [pcompile] in Hc.
+    destruct (lower_list k es) as [ts|] eqn:Lt; [|discriminate].
+    destruct (Nat.eqb (length xs) (length ts)); inversion Hc; subst.
+    eapply tup_sets_runs; [eapply exprs_ok; eauto|].
+    eapply tup_gets_runs; [exact Hs | intros i x Hi; now apply setregs_at |].
+    apply Ha. intros r Hlt. apply setregs_below. unfold phi_reg. exact Hlt.
   - (* for: range exhausted *)
     intros x body env d kn cb ls rg v i vb Hcb Hl Hn Hr Hi Hvb Hp Hbd Ha.
     set (L := KRCJ Clt (RReg (phi_reg d)) (RReg (bound_reg d)) (KGet x (phi_reg d) cb) kn).
